@@ -91,3 +91,120 @@ Theorem rule_fin_mem : forall p0 pl0 rest,
 Proof.
   intros. unfold gen_mem_init. rewrite triple_fold. reflexivity.
 Qed.
+
+(* ------------------------------------------------------------------ the WHOLE of _current_select
+   The two inner helpers are regenerated from the source (Gen/CondRules.v) and the function is
+   assembled over the stack in python order; it computes exactly what the hand-written model
+   (current_lits / sel_of_lits over the reversed representation) computes. *)
+From Coq Require Import Lia.
+
+Theorem rule_and_opt : forall a b, gen_and_with_possible_none a (Some b) = and_opt a b.
+Proof. intros [a|] b; reflexivity. Qed.
+
+Lemma enum_from_app : forall l1 l2 i,
+  enum_from i (l1 ++ l2) = enum_from i l1 ++ enum_from (i + Z.of_nat (length l1)) l2.
+Proof.
+  induction l1 as [|x l1 IH]; intros l2 i; cbn [app enum_from length].
+  - rewrite Z.add_0_r. reflexivity.
+  - rewrite IH. do 3 f_equal. lia.
+Qed.
+
+Definition lastoth (L : list cond) : option Z :=
+  fold_left (fun (lo : option Z) (ip : Z * cond) => if is_oth (snd ip) then Some (fst ip) else lo)
+            (enum_from 0 L) None.
+
+Definition between_of (L : list cond) : list cond :=
+  match lastoth L with None => L | Some i => skipn (Z.to_nat (i + 1)) L end.
+
+Lemma gen_between_unfold : forall predlist,
+  gen_between_otherwise_and_current predlist = between_of (removelast predlist).
+Proof. reflexivity. Qed.
+
+Lemma lastoth_snoc : forall L x,
+  lastoth (L ++ [x]) = if is_oth x then Some (Z.of_nat (length L)) else lastoth L.
+Proof.
+  intros L x. unfold lastoth. rewrite enum_from_app, fold_left_app. cbn. reflexivity.
+Qed.
+
+Lemma lastoth_bound : forall L i, lastoth L = Some i -> 0 <= i < Z.of_nat (length L).
+Proof.
+  induction L as [|x L IH] using rev_ind; intros i H.
+  - discriminate.
+  - rewrite lastoth_snoc in H. rewrite app_length. cbn [length].
+    destruct (is_oth x).
+    + injection H as <-. lia.
+    + specialize (IH i H). lia.
+Qed.
+
+Lemma between_snoc : forall L x,
+  between_of (L ++ [x]) = if is_oth x then [] else between_of L ++ [x].
+Proof.
+  intros L x. unfold between_of. rewrite lastoth_snoc. destruct (is_oth x).
+  - apply skipn_all2. rewrite app_length. cbn [length]. lia.
+  - destruct (lastoth L) as [i|] eqn:E; [|reflexivity].
+    pose proof (lastoth_bound L i E) as Hb.
+    rewrite skipn_app.
+    replace (Z.to_nat (i + 1) - length L)%nat with 0%nat by lia. reflexivity.
+Qed.
+
+Lemma between_rev : forall pre, between_of (rev pre) = map CP (rev (since_oth pre)).
+Proof.
+  induction pre as [|c pre IH]; [reflexivity|].
+  cbn [rev]. rewrite between_snoc. destruct c as [p|]; cbn [is_oth since_oth rev].
+  - rewrite IH, map_app. reflexivity.
+  - reflexivity.
+Qed.
+
+(* between_otherwise_and_current on a level = the predicates after the last otherwise, oldest first *)
+Theorem rule_between : forall c pre,
+  gen_between_otherwise_and_current (rev (c :: pre)) = map CP (rev (since_oth pre)).
+Proof.
+  intros c pre. rewrite gen_between_unfold. cbn [rev]. rewrite removelast_last. apply between_rev.
+Qed.
+
+Lemma inner_fold : forall ps acc,
+  fold_left (fun (acc : option bexpr * list lit) (c : cond) =>
+               match c with
+               | CP predicate => (gen_and_with_possible_none (fst acc) (Some (gen_between_expr predicate)),
+                                  snd acc ++ [(predicate, gen_between_flag)])
+               | COth => acc
+               end) (map CP ps) acc
+  = (fold_left (fun s l => and_opt s (lit_expr l)) (map (fun p => (p, gen_between_flag)) ps) (fst acc),
+     snd acc ++ map (fun p => (p, gen_between_flag)) ps).
+Proof.
+  induction ps as [|p ps IH]; intros [s ls]; cbn [map fold_left fst snd].
+  - rewrite app_nil_r. reflexivity.
+  - rewrite IH. cbn [fst snd]. rewrite rule_and_opt, <- app_assoc. reflexivity.
+Qed.
+
+Lemma gen_level_rule : forall acc lvl,
+  gen_level acc (rev lvl)
+  = (fold_left (fun s l => and_opt s (lit_expr l)) (level_lits lvl) (fst acc), snd acc ++ level_lits lvl).
+Proof.
+  intros [s ls] [|c pre].
+  - cbn. rewrite app_nil_r. reflexivity.
+  - unfold gen_level. rewrite rule_between, inner_fold. cbn [rev]. rewrite last_last.
+    cbn [fst snd level_lits]. destruct c as [p|].
+    + rewrite rule_and_opt, fold_left_app, <- app_assoc. reflexivity.
+    + rewrite !app_nil_r. reflexivity.
+Qed.
+
+Lemma gen_levels_rule : forall L acc,
+  fold_left gen_level (map (@rev cond) L) acc
+  = (fold_left (fun s l => and_opt s (lit_expr l)) (flat_map level_lits L) (fst acc),
+     snd acc ++ flat_map level_lits L).
+Proof.
+  induction L as [|lvl L IH]; intros [s ls]; cbn [map fold_left flat_map fst snd].
+  - rewrite app_nil_r. reflexivity.
+  - rewrite gen_level_rule, IH. cbn [fst snd]. rewrite fold_left_app, <- app_assoc. reflexivity.
+Qed.
+
+(* _current_select as regenerated from the source, run on the python-order stack, returns exactly the
+   (select, pred_set) the model's _build uses *)
+Theorem rule_current_select : forall stk,
+  gen_current_select (rev (map (@rev cond) stk)) = (sel_of_lits (current_lits stk), current_lits stk).
+Proof.
+  intros [|cur rest]; [reflexivity|].
+  unfold gen_current_select, current_lits, sel_of_lits. cbn [map rev tl].
+  rewrite removelast_last, <- map_rev, gen_levels_rule. reflexivity.
+Qed.
